@@ -86,26 +86,46 @@ def prop(run, p, pid, assert_names):
         cf = [x for x in p.own_nodes(m) if isinstance(x, ast.Call) and norm(x.func) == 'self._check_failures']
         for c in calls:
             n += 1
-            # result name
-            res = None
+            # names that hold the first component (the failure count) of the call's result:
+            #   (failures, msgs) = call(...)   |   r = call(...); (failures, msgs) = r   |   r[0]   |   r.failures
+            first = set()
+            whole = set()
             for s in ast.walk(m.node):
-                if isinstance(s, ast.Assign) and s.value is c and isinstance(s.targets[0], ast.Name):
-                    res = s.targets[0].id
+                if isinstance(s, ast.Assign) and s.value is c:
+                    for t in s.targets:
+                        if isinstance(t, ast.Name):
+                            whole.add(t.id)
+                        elif isinstance(t, (ast.Tuple, ast.List)) and t.elts and isinstance(t.elts[0], ast.Name):
+                            first.add(t.elts[0].id)
+            for s in ast.walk(m.node):
+                if isinstance(s, ast.Assign) and isinstance(s.value, ast.Name) and s.value.id in whole:
+                    for t in s.targets:
+                        if isinstance(t, (ast.Tuple, ast.List)) and t.elts and isinstance(t.elts[0], ast.Name):
+                            first.add(t.elts[0].id)
             ok = False
             for k in cf:
-                if k.args:
-                    clo = dep_closure(m.node, names_in(k.args[0]))
-                    if res and res in clo:
-                        # first component: (failures, msgs) = r
-                        for s in ast.walk(m.node):
-                            if isinstance(s, ast.Assign) and isinstance(s.targets[0], ast.Tuple) and norm(s.value) == res \
-                                    and norm(s.targets[0].elts[0]) == norm(k.args[0]):
-                                ok = True
+                if not k.args:
+                    continue
+                a0 = k.args[0]
+                if isinstance(a0, ast.Name) and a0.id in first:
+                    ok = True
+                elif isinstance(a0, ast.Subscript) and isinstance(a0.value, ast.Name) and a0.value.id in whole and \
+                        isinstance(a0.slice, ast.Constant) and a0.slice.value == 0:
+                    ok = True
+                elif isinstance(a0, ast.Attribute) and isinstance(a0.value, ast.Name) and a0.value.id in whole and a0.attr == 'failures':
+                    ok = True
+                elif isinstance(a0, ast.Starred) and isinstance(a0.value, ast.Name) and a0.value.id in whole:
+                    ok = True
+                elif isinstance(a0, ast.Starred) and a0.value is c:
+                    ok = True
             run.ob(rid, '%s::%s::%s' % (m.rel, m.short, norm(c.func)), ok,
                    '%s: the first component of %s(...) is %s to _check_failures' % (m.short, norm(c.func), 'passed' if ok else 'NOT passed'), fn=m, node=c)
     ck = p.lookup_method(rt.qn, '_check_failures')
-    src = ast.unparse(ck.node).replace(' ', '')
-    run.ob(rid, '%s::%s' % (ck.rel, ck.short), 'self.assert_fn(failures==0,' in src, '_check_failures asserts failures == 0', fn=ck, nontrivial=False)
+    fparam = ck.posparams[1] if len(ck.posparams) > 1 else None
+    asserts = [x for x in p.own_nodes(ck) if isinstance(x, ast.Call) and norm(x.func) == 'self.assert_fn' and x.args and
+               isinstance(x.args[0], ast.Compare) and len(x.args[0].ops) == 1 and isinstance(x.args[0].ops[0], ast.Eq) and
+               {norm(x.args[0].left), norm(x.args[0].comparators[0])} == {fparam, '0'}]
+    run.ob(rid, '%s::%s' % (ck.rel, ck.short), bool(asserts), '_check_failures asserts failures == 0', fn=ck, nontrivial=False)
     run.floor(rid, n, len(assert_names) - 1)
     return n
 
